@@ -132,8 +132,9 @@ def allChildReferences (h : Heap) (root : SlabID) : Except HErr (List SlabID × 
 
 /-! ### `PersistentSlabStorage.SlabIterator` and `CheckStorageHealth` on what it yields
 
-`σ` is the in-memory slab, `β` the register; `abs : σ → HSlab` reduces a slab to its own ID and the
-references its `ChildStorables` traversal finds.  The model flattens that traversal (`(abs v).refs`)
+`σ` is the in-memory slab, `β` the register; `abs id v` reduces the slab `v` held under the key `id`
+to its own ID (`v.SlabID()`; the key is passed along for slab types of the model that do not carry
+their ID) and the references its `ChildStorables` traversal finds.  The model flattens that traversal (`(abs id v).refs`)
 where Go interleaves it with the loads, so the ORDER in which lazily loaded slabs are appended may
 differ from Go's; the multiset of yielded entries is the same, and the order of the slice is a free
 parameter of the check anyway (Go map iteration order of `deltas` / `cache`). -/
@@ -144,7 +145,7 @@ variable {σ β : Type}
 /-- one level of `appendChildStorables`: a reference that is a KEY of `deltas` or `cache` (even with
     a nil value) is skipped; any other is fetched with `RetrieveIgnoringDeltas(id, false)` (not
     cached), appended to the slice, and its references join the next level. -/
-def iterLevel (c : Codec σ β) (abs : σ → HSlab) (s : St σ β) :
+def iterLevel (c : Codec σ β) (abs : SlabID → σ → HSlab) (s : St σ β) :
     List SlabID → List (SlabID × σ) → List SlabID → Except HErr (List (SlabID × σ) × List SlabID)
   | [], acc, next => .ok (acc, next)
   | id :: rest, acc, next =>
@@ -154,12 +155,12 @@ def iterLevel (c : Codec σ β) (abs : σ → HSlab) (s : St σ β) :
       match s.retrieveIgnoringDeltas c id false with
       | .error _ => .error .decoding
       | .ok (none, _) => .error .slabNotFound       -- "slab not found during slab iteration"
-      | .ok (some v, _) => iterLevel c abs s rest (acc ++ [(id, v)]) (next ++ (abs v).refs)
+      | .ok (some v, _) => iterLevel c abs s rest (acc ++ [(id, v)]) (next ++ (abs id v).refs)
 
 /-- `appendChildStorables`: level by level until no reference is left.  `fuel` bounds the number
     of levels (a reference cycle among registers that are not loaded makes the Go loop run
     forever). -/
-def iterChildren (c : Codec σ β) (abs : σ → HSlab) (s : St σ β) :
+def iterChildren (c : Codec σ β) (abs : SlabID → σ → HSlab) (s : St σ β) :
     Nat → List SlabID → List (SlabID × σ) → Except HErr (List (SlabID × σ))
   | _, [], acc => .ok acc
   | 0, _ :: _, _ => .error .diverges
@@ -169,12 +170,12 @@ def iterChildren (c : Codec σ β) (abs : σ → HSlab) (s : St σ β) :
     | .ok (acc', next) => iterChildren c abs s fuel next acc'
 
 /-- `appendSlab` -/
-def iterAppend (c : Codec σ β) (abs : σ → HSlab) (s : St σ β) (acc : List (SlabID × σ))
+def iterAppend (c : Codec σ β) (abs : SlabID → σ → HSlab) (s : St σ β) (acc : List (SlabID × σ))
     (id : SlabID) (v : σ) : Except HErr (List (SlabID × σ)) :=
-  iterChildren c abs s (s.base.length + 1) (abs v).refs (acc ++ [(id, v)])
+  iterChildren c abs s (s.base.length + 1) (abs id v).refs (acc ++ [(id, v)])
 
 /-- first loop of `SlabIterator`: the write set; nil entries are skipped -/
-def iterDeltas (c : Codec σ β) (abs : σ → HSlab) (s : St σ β) :
+def iterDeltas (c : Codec σ β) (abs : SlabID → σ → HSlab) (s : St σ β) :
     List (SlabID × Option σ) → List (SlabID × σ) → Except HErr (List (SlabID × σ))
   | [], acc => .ok acc
   | (_, none) :: rest, acc => iterDeltas c abs s rest acc
@@ -185,7 +186,7 @@ def iterDeltas (c : Codec σ β) (abs : σ → HSlab) (s : St σ β) :
 
 /-- second loop: the copied cache keys; nil entries and IDs that are keys of the write set are
     skipped -/
-def iterCache (c : Codec σ β) (abs : σ → HSlab) (s : St σ β) :
+def iterCache (c : Codec σ β) (abs : SlabID → σ → HSlab) (s : St σ β) :
     List SlabID → List (SlabID × σ) → Except HErr (List (SlabID × σ))
   | [], acc => .ok acc
   | id :: rest, acc =>
@@ -199,7 +200,7 @@ def iterCache (c : Codec σ β) (abs : σ → HSlab) (s : St σ β) :
         | .ok acc' => iterCache c abs s rest acc'
 
 /-- `PersistentSlabStorage.SlabIterator()`: the slice the returned closure walks through. -/
-def slabIterator (c : Codec σ β) (abs : σ → HSlab) (s : St σ β) :
+def slabIterator (c : Codec σ β) (abs : SlabID → σ → HSlab) (s : St σ β) :
     Except HErr (List (SlabID × σ)) :=
   match iterDeltas c abs s s.deltas [] with
   | .error e => .error e
@@ -236,11 +237,11 @@ def checkYield (ys : Heap) (expected : Option Nat) : Except HErr (List SlabID) :
           | none => .ok roots
 
 /-- `CheckStorageHealth(storage, expected)` for a `PersistentSlabStorage`. -/
-def checkStorage {σ β : Type} (c : Codec σ β) (abs : σ → HSlab) (s : St σ β)
+def checkStorage {σ β : Type} (c : Codec σ β) (abs : SlabID → σ → HSlab) (s : St σ β)
     (expected : Option Nat) : Except HErr (List SlabID) :=
   match slabIterator c abs s with
   | .error e => .error e
-  | .ok ys => checkYield (ys.map (fun p => (p.1, abs p.2))) expected
+  | .ok ys => checkYield (ys.map (fun p => (p.1, abs p.1 p.2))) expected
 
 end Health
 end Atree
